@@ -114,4 +114,17 @@ var Properties = map[string]*Property{
 		Assumptions: []string{"a regular expression is an arbitrary predicate on strings (one solver variable per (expression, string))", "with hide/show a frameless sample may or may not be dropped (the statement allows both)"},
 		Outside: []string{"compilation of filter option strings (driver_focus.go; numeric ranges are under C09/C15)", "FilterSamplesByTag with unit conversion", "relative_percentages", "RE2 matching itself"},
 	},
+	"C09": {
+		ID: "C09",
+		Harnesses: []HarnessSpec{
+			{Pkg: "internal/driver", Fn: "VerifC09TagRange", Solver: "cvc5-int-oneshot", MaxDecisions: 2000,
+				Quick: map[string]int{"c09.lens": 2, "c09.signs": 1, "c09.units": 2}, Thorough: map[string]int{"c09.lens": 4, "c09.signs": 3, "c09.units": 3}, QuickTimeoutS: 400, ThoroughTimeoutS: 1700,
+				What: "parseTagFilterRange on range expressions of the four forms (v, v:, :v, a:b) whose numbers are 1/20 (quick) or 1/3/19/20 (thorough) symbolic decimal digits, optional sign and unit: never panics (strconv.ParseInt interpreted over symbolic digits, overflow paths included), returned predicate callable"},
+			{Pkg: "internal/driver", Fn: "VerifC09LocateBinaries", Solver: "z3", QuickTimeoutS: 60, ThoroughTimeoutS: 120,
+				What: "locateBinaries for build ids of length 0,1,2,3,10 x file names incl. volume-like and empty, with an ObjTool that fails every open: no panic"},
+		},
+		Assumptions: []string{"regexp submatch on symbolic digits: the match structure is computed natively on two digit fillings that must agree (the range regexp only uses character classes)"},
+		Stubs:   []string{"plugin.ObjTool and plugin.UI are harness mocks", "filepath.Glob returns no matches", "os.Getenv returns the empty string"},
+		Outside: []string{"arbitrary regexp syntax errors", "interactive loop, web handlers and URL parsing (net/url, net/http)", "profile-content-triggered panics in report generation beyond what C04/C05/C17 harnesses reach"},
+	},
 }
